@@ -279,7 +279,8 @@ REGISTRY = {
     'C20': {
         'theorems': ['PP.C20.linearizable', 'PP.C20.step_inv'],
         'modules': ['PP.Model.Registry', 'PP.Model.Threads', 'PP.Props.C20'],
-        'sections': [{'name': 'schedules', 'run': simple_sec('sec_threads', 'threads_section')}],
+        'sections': [{'name': 'schedules', 'run': simple_sec('sec_threads', 'threads_section')},
+                     {'name': 'line-preemption', 'run': simple_sec('sec_threads', 'line_section')}],
         'rule': 'all schedules up to a pre-emption bound, switch points at every access to the shared registry state',
         'assumptions': ['partial: the atomicity granularity is one access to the deferred dict / singledispatch object (dict.get, dict.pop, register, dispatch are atomic under the GIL); '
                         'pre-emption inside such an operation, free-threaded builds and cpprint\'s global colour palette are not covered'],
